@@ -28,7 +28,7 @@ PROPS = {
     ),
     "C04": dict(
         props_files=["Avfs/Props/C04.lean"],
-        parts=[dict(name="memfs"), dict(name="kernel-links")],
+        parts=[dict(name="memfs"), dict(name="kernel-links"), dict(name="path", tags="verif,avfs_setostype")],
         trusted=MODEL_TRUST + ["oracle: the Linux kernel and filepath.EvalSymlinks in a chroot-ed child on tmpfs"],
         assumptions=["link chains up to 42 around the budget of 40; random relative / absolute / dangling / cyclic targets"],
         not_yet_proved=["searchNode ≃ namei (structural kernel-style resolution) — the equality with the kernel is carried by the oracle run", "follow-mode never returns a link; readlink (symlink t n) = clean t as theorems"],
@@ -105,10 +105,11 @@ PROPS = {
     ),
     "C03": dict(
         props_files=["Avfs/Props/C03.lean"],
-        parts=[dict(name="memfs-perm")],
+        parts=[dict(name="memfs-perm"), dict(name="kernel-perm")],
         trusted=MODEL_TRUST,
         assumptions=["one group per user, no ACLs, no capabilities other than the administrator's override"],
-        not_yet_proved=["per-call equality of the decision with the kernel's (kernel oracle under setfsuid not wired in yet)", "sticky / setgid directory semantics"],
+        trusted_extra=["oracle: the Linux kernel in a chroot-ed child on tmpfs acting under setfsuid/setfsgid (raw per-thread syscalls, supplementary groups dropped) for every generated user"],
+        not_yet_proved=["per-call equality of the decision with the kernel's as a theorem (it is an oracle run: corr kernel-perm)", "sticky / setgid directory semantics"],
     ),
     "C09": dict(
         props_files=["Avfs/Props/C09.lean"],
